@@ -43,3 +43,12 @@ pub fn fshobst_stub(_m: &bemodel::Model) -> bemodel::kani_models::BTreeMap<bemod
 pub fn uuid_eq_stub(a: &bemodel::Uuid, b: &bemodel::Uuid) -> bool {
     a.as_u128() == b.as_u128()
 }
+
+/// Cheaper stand-in for `f32::ln`: a fixed, deterministic, non-identity function of the argument's bits
+/// (mantissa scrambled, sign/exponent kept, so finite in -> finite out).  Like the memoised version it only
+/// provides "ln is a function"; unlike it, it needs no lookup table, which the solver could not digest
+/// within 45 min for the 13370 kernels.  A mutation that drops a `ln` call, or changes its argument, still
+/// changes the result; the numeric value of ln remains outside every claim.
+pub fn ln_bits_stub(x: f32) -> f32 {
+    f32::from_bits(x.to_bits() ^ 0x0005_a5a5)
+}
